@@ -15,10 +15,11 @@ def _build():
 def run(tier):
     c = vlib.Check("C10", tier, "exploration", RULE, "dimacs")
     c.deadline = 110 if tier == "quick" else 1500
-    c.assumptions = ["lines stay far below the reader's 1024-byte buffer (as the property states)", "fmemopen streams behave like files for fgets"]
+    c.assumptions = ["all lines are shorter than the reader's 1024-byte buffer (as the property states); every length below it is enumerated for one line at a time", "fmemopen streams behave like files for fgets"]
     b = _build()
     c.builds_done()
-    plan = [("reader L<=2, full alphabet", ["--mode", "reader", "--lines", 2]), ("validators, <=3 edges", ["--mode", "validators", "--max-edges", 3])]
+    plan = [("reader L<=2, full alphabet", ["--mode", "reader", "--lines", 2]), ("validators, <=3 edges", ["--mode", "validators", "--max-edges", 3]),
+            ("reader, one line stretched to every length 1..1022 (+ newline) / 1..1023 (final line without newline): comment 'c'/'#' at each of 4 positions, zero-padded decimal weight on each of 3 edge lines", ["--mode", "longlines"])]
     if tier == "thorough":
         plan += [("reader L<=3, u,v in 1..3, 3 weight spellings, <=1 comment line", ["--mode", "reader", "--lines", 3, "--maxv", 3, "--nweights", 3, "--max-comments", 1]),
                  ("reader L<=2, names -1..4", ["--mode", "reader", "--lines", 2, "--minv", -1, "--nweights", 3, "--max-comments", 1]),
